@@ -4,11 +4,15 @@ import (
 	"bytes"
 	"context"
 	"encoding/json"
+	"example.com/m/ext/fwd"
 	h1 "example.com/m/ext/http"
+	"example.com/m/ext/pairs"
+	"example.com/m/ext/wire"
 	"fmt"
 	"io"
 	"math/big"
 	"net/mail"
+	"net/textproto"
 	"net/url"
 	"os"
 	"regexp"
@@ -146,6 +150,23 @@ type ShapesVariadicAnyLike interface {
 	ExactAny(xs ...any) error
 	ExactIface(p string, xs ...interface{}) (string, error)
 	ExactAnyNoResult(p string, q int, xs ...any)
+}
+
+// local aliases of foreign types: the mock spells only the alias (src.Frame out of package), so the package BEHIND the alias
+// (ext/wire, net/textproto, ext/pairs; ext/inner behind the ext package's alias fwd.Thing) must not be imported - nothing else in
+// this file uses them.  R = io.Reader is the control: io is needed elsewhere.
+type Frame = wire.Frame
+type FrameAgain = Frame
+type MIME = textproto.MIMEHeader
+type PS = pairs.Pair[string, int]
+type R = io.Reader
+
+type ShapesAlias interface {
+	Send(f Frame, again *FrameAgain) error
+	Headers(m MIME, more ...MIME) (MIME, error)
+	Pairs(ps []PS, one PS) map[string]PS
+	Read(r R, w io.Writer) (R, error)
+	Fwd(t fwd.Thing, ts ...fwd.Thing) (fwd.Thing, error)
 }
 
 type ShapesEmpty interface{}
